@@ -39,6 +39,8 @@ type Config struct {
 	BeforeEcho func(c context.Context, ctx *app.RequestContext)
 	// ReadBody overrides how the streaming body is consumed (nil = io.ReadAll).
 	ReadBody func(r io.Reader) ([]byte, error)
+	// Setup may register real routes (the echo handler is passed in); everything else goes to NoRoute.
+	Setup func(h *server.Hertz, echo app.HandlerFunc)
 }
 
 // Echo is a reusable echo server; Obs is reset by each Run.
@@ -59,6 +61,9 @@ func NewEcho(cfg Config) *Echo {
 	opts = append(opts, cfg.Extra...)
 	e.S = sconn.NewServer(func(h *server.Hertz) {
 		h.NoRoute(e.handle)
+		if cfg.Setup != nil {
+			cfg.Setup(h, e.handle)
+		}
 	}, opts...)
 	if cfg.ReadBuf > 0 {
 		e.S.ReadBuf = cfg.ReadBuf
